@@ -98,9 +98,17 @@ class Operation:
     def __eq__(self, value: object) -> bool:
         if not isinstance(value, Operation):
             return False
+        # A subclass that declares its own ``__slots__`` shadows this class'
+        # attribute: collect the slots of every class in both MROs.
+        missing = object()
+        slots = {
+            slot
+            for cls in type(self).__mro__ + type(value).__mro__
+            for slot in getattr(cls, "__slots__", ())
+        }
         return all(
-            getattr(self, slot) == getattr(value, slot)
-            for slot in self.__slots__
+            getattr(self, slot, missing) == getattr(value, slot, missing)
+            for slot in slots
         )
 
     def __repr__(self) -> str:
